@@ -88,8 +88,17 @@ func verifC16Addr(g int) vaa.Address {
 }
 
 func verifC16ID(cycle, g, slot int) vaa.VAAID {
-	return vaa.VAAID{EmitterChain: 2, EmitterAddress: verifC16Addr(g), TargetChain: 255, Sequence: uint64(cycle)<<32 | uint64(slot)}
+	id := vaa.VAAID{EmitterChain: 2, EmitterAddress: verifC16Addr(g), TargetChain: 255, Sequence: uint64(cycle)<<32 | uint64(slot)}
+	if slot%8 == 3 {
+		// a sibling of the previous slot: same emitter and sequence, another target chain (the identifier has four components)
+		id.TargetChain, id.Sequence = 4, uint64(cycle)<<32|uint64(slot-1)
+	}
+	return id
 }
+
+// some stored VAAs have an EMPTY payload: StoreSignedVAA accepts and acknowledges them (the wire decoder refuses them, which is no
+// business of the store: what was acknowledged must come back, and the store must reopen with them inside)
+func verifC16EmptyPayload(slot int) bool { return slot%16 == 6 }
 
 func verifC16VAA(seed uint64, cycle, g, slot, ver int) *vaa.VAA {
 	r := &verifC16Gen{s: verifC16Mix(seed, uint64(cycle), uint64(g), uint64(slot), uint64(ver), 7)}
@@ -97,6 +106,9 @@ func verifC16VAA(seed uint64, cycle, g, slot, ver int) *vaa.VAA {
 	binary.BigEndian.PutUint64(payload, uint64(ver))
 	for i := 8; i < len(payload); i++ {
 		payload[i] = byte(r.next())
+	}
+	if verifC16EmptyPayload(slot) {
+		payload = nil // versions still differ in the nonce
 	}
 	id := verifC16ID(cycle, g, slot)
 	v := &vaa.VAA{Version: vaa.SupportedVAAVersion, GuardianSetIndex: uint32(cycle), Timestamp: time.Unix(1700000000+int64(slot), 0), Nonce: uint32(ver),
@@ -520,7 +532,7 @@ func TestVerifC16(t *testing.T) {
 					if found {
 						expects = append(expects, verifC16Expect{id, b})
 					}
-					if inWindow[s] {
+					if inWindow[s] && !verifC16EmptyPayload(s) { // (the Coq comparison decodes the stored bytes: empty-payload VAAs are judged by the monitors above only)
 						ws := &verifC16Slot{G: g, Slot: s, Found: found, GotVer: gotVer}
 						for _, j := range js {
 							ws.Steps = append(ws.Steps, j)
